@@ -142,8 +142,17 @@ class SSHChannel(log.Logger):
         if self.extBuf:
             b = self.extBuf
             self.extBuf = []
-            for type, data in b:
-                self.writeExtended(type, data)
+            # Hold back a pending close until every buffered entry has been
+            # replayed: writeExtended() retries the close as soon as the
+            # buffers look empty, which they do after the first entry.
+            closing, self.closing = self.closing, False
+            try:
+                for type, data in b:
+                    self.writeExtended(type, data)
+            finally:
+                self.closing = closing
+            if closing:
+                self.loseConnection()
 
     def requestReceived(self, requestType, data):
         """
